@@ -193,10 +193,8 @@ func (x *X) specEval(env *SpecEnv, e *SpecExpr) Value {
 		}
 		_ = ranges
 		body := x.specBool(&ne, e.R)
-		if e.Kind == "forall" {
-			if nb, np, ok := reindexQuant(vars, body); ok {
-				return boolVal(Quant("forall", vars, nb, np))
-			}
+		if nb, np, ok := reindexQuant(vars, body); ok {
+			return boolVal(Quant(e.Kind, vars, nb, np))
 		}
 		var pats []*Term
 		collectPatterns(body, vars, &pats, map[string]bool{})
@@ -208,6 +206,36 @@ func (x *X) specEval(env *SpecEnv, e *SpecExpr) Value {
 		var patList []*Term
 		if len(usable) > 0 {
 			patList = usable
+		} else if len(vars) > 1 {
+			// one multi-pattern made of the smallest select/uf term per bound variable
+			var parts []*Term
+			okAll := true
+			for _, v := range vars {
+				var ps []*Term
+				collectPatterns(body, []*Term{v}, &ps, map[string]bool{})
+				if len(ps) == 0 {
+					okAll = false
+					break
+				}
+				best := ps[0]
+				for _, p := range ps[1:] {
+					if p.size < best.size {
+						best = p
+					}
+				}
+				dup := false
+				for _, q := range parts {
+					if q.String() == best.String() {
+						dup = true
+					}
+				}
+				if !dup {
+					parts = append(parts, best)
+				}
+			}
+			if okAll && len(parts) > 0 {
+				patList = []*Term{mk("$multi", SBool, parts...)}
+			}
 		}
 		return boolVal(Quant(e.Kind, vars, body, patList))
 	}
@@ -595,6 +623,19 @@ func (x *X) applySpecFunc(env *SpecEnv, sf *SpecFunc, args []Value) Value {
 	rt, err := x.prog.resolveTypeText(sf.Ret, env.pkg)
 	if err != nil {
 		fail("%s: %v", sf.Name, err)
+	}
+	if sf.Body != "" && sf.Opaque && !x.revealed[sf.Name] {
+		// opaque here: an uninterpreted function of the (scalar) arguments
+		var ts []*Term
+		for i, p := range sf.Params {
+			s, err := x.prog.sortOfTypeText(p.Type, env.pkg)
+			if err != nil {
+				fail("%s: opaque spec functions need scalar parameters: %v", sf.Name, err)
+			}
+			ts = append(ts, x.coerceToSort(args[i], s))
+		}
+		l := layoutOf(rt)
+		return scalar(rt, x.c.uf("opaque!"+sf.Name, l.Comps[0].Sort, ts...))
 	}
 	if sf.Body != "" {
 		if sf.Expr == nil {
